@@ -61,6 +61,13 @@ CLAIMS.update({
          "3.5, 3.6, 4 (C10)"),
 })
 
+CLAIMS.update({
+ "C29": ("SSA rules on the committed generated parsers and the hand-written js parse loop: poll-in-shift-loop, mask form/agreement, error-flow slice to returns",
+         "Decides that every shift loop polls the context with a bounded period through a mask test on the shared counter, and that no error that can be ctx.Err() is dropped between a lookahead and Parse*'s result. Necessary conditions of the property for the shipped parsers (generated sources are sources: a template change must be reflected in them for the pinned TestGenerate to pass).",
+         "Template branches not instantiated by a shipped grammar are not covered by this rule.",
+         "3.9, 4 (C29)"),
+})
+
 NA = {
 }
 
